@@ -356,6 +356,11 @@ func c09MessageSetStopsAtV2(c *Ctx) {
 	magic := p.ResultOf(0, "magicValue")
 	for _, s := range blocks {
 		ok := false
+		// … in the same iteration: a magic byte looked at before the loop says nothing about the next block
+		reg := reg
+		if l := Info(fn).InnermostLoop(itemBlock(s)); l != nil {
+			reg = Info(fn).Iteration(l)
+		}
 		for _, pr := range []Pred{Cmp{token.LEQ, magic, ConstInt(1)}, Cmp{token.LSS, magic, ConstInt(2)}} {
 			if g, _ := reg.Guarded(s, pr); g {
 				ok = true
